@@ -9,7 +9,7 @@ mkdir -p build evidence
 ( cd coq && coq_makefile -f _CoqProject -o Makefile >/dev/null && timeout 6000 make -j16 >../build/coq-make.log 2>&1 ) || { tail -40 build/coq-make.log; exit 1; }
 cp /repo/go.sum go/go.sum
 PIDS=$(python3 -c "import sys; sys.path.insert(0,'lib'); from propcfg import PROPS; print(' '.join(k.lower() for k in PROPS))")
-flags_of() { python3 -c "import sys; sys.path.insert(0,'lib'); from propcfg import PROPS; print(' '.join(PROPS['$1'.upper()].get('go_build_flags', [])))"; }
+flags_of() { python3 -c "import sys; sys.path.insert(0,'$PWD/lib'); from propcfg import PROPS; print(' '.join(PROPS['$1'.upper()].get('go_build_flags', [])))"; }
 for p in $PIDS; do
   ( ocaml/build.sh $p && cd go && go build -tags verif $(flags_of $p) -o ../build/h-$p ./$p ) &
 done
